@@ -114,7 +114,8 @@ CHECKS = {
                 'arguments, returning the forwarded value; the instantiation optimiser returns BasicInterpreter\'s value; ProofThunk '
                 'returns only after dynamic == static conclusion; each ProofExp primitive advertises the term BasicInterpreter computes; '
                 'sibling empty-map guards agree. Joint behaviour on concrete expressions is not observed. Interpreter.pattern interprets the operands of each constructor in the order of the stack slots the tracking interpreters check (walk-order, 8 arms); the tracking interpreters compare terms with ==, never by identity. Every interpreter class that refines a call through super() calls the same method with its own arguments (64 delegations); no interpreter class keeps class-level mutable state mutated through instances.'
-                ' The Instantiate operand pairing and the memoiser\'s slot budget (shared with C02) are part of \'the serialising interpreter means the same\'.',
+                ' The Instantiate operand pairing and the memoiser\'s slot budget (shared with C02) are part of \'the serialising interpreter means the same\'.'
+                " gamma / claims are fed to every interpreter through the loop shape C03 requires (a flattening generator must yield every axiom once, in order), and the decorator wrapping the pretty interpreter's steps - wherever it is defined - calls the wrapped step with the received arguments and returns its result.",
         'note': 'Trusted: python ast; the listed construction sites were confirmed by reading.',
         'design_ref': 'DESIGN.md section 3, C08',
     },
@@ -127,7 +128,8 @@ CHECKS = {
                 'pending substitutions resolved at instantiation; Rust additionally the capture checks); the notation node substitutes '
                 'in its expansion and instantiates with one merged map over the untouched body. By induction over patterns this yields '
                 'the per-constructor laws for all inputs. The composition law as an equation over all maps is not evaluated.'
-                ' Instantiate.metavars() (shared with C12) decides which entries of delta are merged.',
+                ' Instantiate.metavars() (shared with C12) decides which entries of delta are merged.'
+                ' The Python half of the C06 soundness table is composed in: the algebra is stated on evar_is_free and its siblings, so an unsound freshness judgement breaks the fresh-variable identity. Methods of the pattern classes outside the pattern API are inlined at their call sites.',
         'note': 'Trusted: spec/substitution.py; well-formed heads of pending substitutions (C01 S2); python ast, rustc MIR.',
         'design_ref': 'DESIGN.md section 3, C11',
     },
@@ -138,7 +140,8 @@ CHECKS = {
                 'node and re-dispatches; the notation node\'s evar_is_free, apply_esubst, apply_ssubst and __eq__ are the operation on the '
                 'expansion (non-delegating bodies are decided only through necessary conditions, else the run is analysis-broken); '
                 'simplify is body.instantiate(inst). Congruence at every nesting depth beyond these facts is not evaluated. A dispatcher must re-enter itself (or loop) on `x.simplify()`: expanding one level and falling through is a violation, since a notation may be defined as an application of another notation.'
-                ' Instantiate.instantiate is ONE merged map over the untouched body (shared with C11); a function defined per loop iteration must not call itself by name.',
+                ' Instantiate.instantiate is ONE merged map over the untouched body (shared with C11); a function defined per loop iteration must not call itself by name.'
+                ' `match` statements are read through one pattern compiler (a case is reached under the exact negation of the earlier ones), so a concrete-constructor case placed before the notation case is a violation; a stripping loop counts only if no concrete-constructor test of the subject precedes it.',
         'note': 'Trusted: python ast. __eq__/__hash__ incoherence is reported as advisory only.',
         'design_ref': 'DESIGN.md section 3, C12',
     },
@@ -261,7 +264,8 @@ CHECKS = {
                 'never shrink); each axiom is converted in a fresh scope cached under its own ordinal and substitutions are converted '
                 'in that scope by lookup. Commutation of conversion with substitution and checker acceptance are not decided (the K '
                 'modules cannot even be imported here; the analysis is purely syntactic). KSymbol.unwrap_kore_name is the exact inverse of the prefixing in aml_symbol (removeprefix / slice of the prefix length under a startswith guard); the rows of instantiate, load and the publishes (the only calls a K proof makes) are the C02 rows.'
-                ' get_proof_hints examines every adjacent pair of trace entries (loop header evaluated over four abstract entries); the configuration is advanced only after the claim and the proof are registered, decided by event order through helper methods.',
+                ' get_proof_hints examines every adjacent pair of trace entries (loop header evaluated over four abstract entries); the configuration is advanced only after the claim and the proof are registered, decided by event order through helper methods.'
+                ' The scope tables are distinct objects per scope (no dict.fromkeys(keys, {}) / [[..]] * n sharing).',
         'note': 'Trusted: python ast.',
         'design_ref': 'DESIGN.md section 3, C20',
     },
